@@ -59,6 +59,9 @@ type Scenario struct {
 	Again         bool            `json:"again"`          // a further Shutdown after the first returned
 	BeforeRun     bool            `json:"before_run"`     // Shutdown on an engine that was never started
 	ConnectHook   time.Duration   `json:"connect_hook,omitempty"` // the OnAccept and OnConnect hooks block this long each
+	// ShutdownEarly: the Shutdown caller only waits for the engine to report "running" - which Run does before the
+	// transport has created its listener - not for the listener
+	ShutdownEarly bool `json:"shutdown_early,omitempty"`
 }
 
 type Job struct {
@@ -219,7 +222,14 @@ func (c *pconn) complete(n int) bool {
 
 func (w *World) clientThread(i int, cl Client) func() {
 	return func() {
-		w.waitRunning()
+		// a client needs the listener; if the server ends without ever listening there is nothing to connect to
+		verifrt.BlockUntil("listener or server end", func() bool {
+			return (w.e.StatusForVerif() >= 2 && verifrt.HasListener(listenAddr)) || w.e.StatusForVerif() >= 4
+		})
+		if !verifrt.HasListener(listenAddr) {
+			w.refused++
+			return
+		}
 		if cl.Shape == Late {
 			verifrt.Sleep(cl.Gap)
 		}
@@ -337,7 +347,11 @@ func (w *World) Body() func() {
 			w.shutdowns = append(w.shutdowns, r)
 			wg.Add(1)
 			verifrt.Go(fmt.Sprintf("shutdown%d", k), func() {
-				w.waitRunning()
+				if sc.ShutdownEarly {
+					verifrt.BlockUntil("engine status running", func() bool { return w.e.StatusForVerif() >= 2 })
+				} else {
+					w.waitRunning()
+				}
 				if sc.ShutdownDelay > 0 {
 					verifrt.Sleep(sc.ShutdownDelay)
 				}
